@@ -457,8 +457,9 @@ fn check_strict(e: &Expect, o: &InvOut, before: &Snap, after: &Snap, inv_i: usiz
                 }
                 return None;
             }
-            if o.out.code != Some(1) {
-                return Some(Fail { clause: "bad-config-accepted", inv: inv_i, detail: format!("exit {:?}, expected exit 1 with a config error; stdout {:?} stderr {:?}", o.out.code, tail(&o.out.stdout), tail(&o.out.stderr)) });
+            // which non-zero status is the tool's own business
+            if o.out.code == Some(0) || o.out.code.is_none() {
+                return Some(Fail { clause: "bad-config-accepted", inv: inv_i, detail: format!("exit {:?}, expected a non-zero exit status with a config error; stdout {:?} stderr {:?}", o.out.code, tail(&o.out.stdout), tail(&o.out.stderr)) });
             }
             if before != after {
                 return Some(Fail { clause: "bad-config-wrote", inv: inv_i, detail: "a rejected invocation changed the project directory".into() });
@@ -483,6 +484,23 @@ fn check_strict(e: &Expect, o: &InvOut, before: &Snap, after: &Snap, inv_i: usiz
             None
         }
         Expect::Seq { tags, output, output_all, overwrite, pattern, dir, all_steps } => {
+            if o.out.code != Some(0) && o.out.code.is_some() && !o.out.timed_out && tags.iter().any(|(_, st)| st.is_none()) {
+                // a tag of this run fails in the library. Today the tool reports that and goes on to
+                // exit 0; a tool that stopped with a non-zero status would claim nothing, so nothing
+                // is demanded of out/ then - only that nothing outside out/ was touched
+                let outdir = format!("{dir}/out");
+                for (p, c) in before {
+                    if !(p == &outdir || under(p, &outdir)) && after.get(p) != Some(c) {
+                        return Some(Fail { clause: "conservation", inv: inv_i, detail: format!("{p} changed or disappeared") });
+                    }
+                }
+                for p in after.keys() {
+                    if !before.contains_key(p) && !(p == &outdir || under(p, &outdir)) {
+                        return Some(Fail { clause: "conservation", inv: inv_i, detail: format!("unexpected new path {p}") });
+                    }
+                }
+                return None;
+            }
             if o.out.code != Some(0) {
                 return Some(Fail { clause: "exit-status", inv: inv_i, detail: format!("exit {:?} signal {:?}, expected 0; stdout {:?} stderr {:?}", o.out.code, o.out.signal, tail(&o.out.stdout), tail(&o.out.stderr)) });
             }
